@@ -82,17 +82,6 @@ macro_rules! impl_top_table_gen_funcs {
     };
 }
 
-macro_rules! impl_table_traits {
-    ($table:ident, $entry:ident, $field:ident) => {
-        impl Table for $table {
-            type Entry = $entry;
-
-            impl_table_gen_funcs!($field);
-            impl_table_gen_setter!($entry, $field);
-        }
-    };
-}
-
 macro_rules! impl_top_table_traits {
     ($table:ident, $entry:ident, $field:ident) => {
         impl Table for $table {
@@ -149,6 +138,12 @@ pub trait Table: From<Qcow2IoBuf<Self::Entry>> {
         self.byte_size().div_ceil(qcow2_info.cluster_size())
     }
 
+    /// Host offsets of the (uncompressed) data clusters mapped by this
+    /// table, for l2 tables; nothing for any other table
+    fn mapped_data_clusters(&self) -> Vec<u64> {
+        Vec::new()
+    }
+
     fn is_update(&self) -> bool {
         self.get_offset().is_some()
     }
@@ -175,6 +170,5 @@ pub trait Table: From<Qcow2IoBuf<Self::Entry>> {
 pub(crate) use impl_entry_display_trait;
 pub(crate) use impl_table_gen_funcs;
 pub(crate) use impl_table_gen_setter;
-pub(crate) use impl_table_traits;
 pub(crate) use impl_top_table_gen_funcs;
 pub(crate) use impl_top_table_traits;
